@@ -193,6 +193,7 @@ struct Scheduler
     std::vector<int> taken, limits; // what was actually chosen, and how many alternatives there were
     long             preemptions{0};
     long             hook_hits{0};
+    long             value_points{0};
     bool             deadlock{false};
     std::vector<OpRec*> cur_op;
 
@@ -291,6 +292,17 @@ extern "C" void cappuccino_verif_before_lock(const void* m)
     if (S->cur_op[static_cast<size_t>(tl_id)])
         S->cur_op[static_cast<size_t>(tl_id)]->acq.push_back(++S->clock);
 }
+extern "C" void verif_value_point()
+{
+    Scheduler* S = g_sched;
+    if (!S || tl_id < 0)
+        return;
+    std::unique_lock<std::mutex> lk(S->mu);
+    if (S->current == -2)
+        return;
+    ++S->value_points;
+    S->point(lk, tl_id);
+}
 extern "C" void cappuccino_verif_after_unlock(const void* m)
 {
     Scheduler* S = g_sched;
@@ -313,9 +325,13 @@ struct History
     bool                             deadlock{false};
 };
 
+void (*g_before_run)(const Program&, const std::vector<int>&) = nullptr;
+
 // run prefix sequentially, the thread programs under the baton with the given choices, the suffix sequentially
 History run_concurrent(const Program& p, const std::vector<int>& choices)
 {
+    if (g_before_run)
+        g_before_run(p, choices);
     History h;
     vt::reset(p.cfg.seed);
     ex::Exec X(p.cfg);
@@ -679,7 +695,15 @@ rc::Gen<Op> gen_op(bool concurrent)
                    : std::vector<std::pair<std::size_t, int>>{{40, cs::O_INS}, {6, cs::O_INSR}, {4, cs::O_ERA}, {6, cs::O_FIND}, {4, cs::O_UTTL}, {12, cs::O_ADV}};
     auto ttl   = weighted<int64_t>({{1, 0}, {3, 1}, {4, 2}, {6, 3}, {6, 5}, {3, 50}, {3, 1000}});
     auto elem  = rc::gen::build<cs::Elem>(rc::gen::set(&cs::Elem::k, uni_int(0, 7)), rc::gen::set(&cs::Elem::ttl_ms, ttl));
-    auto elems = rc::gen::resize(3, rc::gen::container<std::vector<cs::Elem>>(elem));
+    auto small = rc::gen::resize(3, rc::gen::container<std::vector<cs::Elem>>(elem));
+    // a few range calls are long (batching / chunking mistakes only show beyond some element count)
+    auto bulk  = rc::gen::map(rc::gen::resize(100, rc::gen::inRange(129, 300)), [](int n) {
+        std::vector<cs::Elem> v;
+        for (int i = 0; i < n; ++i)
+            v.push_back(cs::Elem{i % 5, 3});
+        return v;
+    });
+    auto elems = concurrent ? rc::gen::oneOf(small, small, small, small, small, small, small, small, small, small, small, small, small, small, small, bulk) : small;
     return rc::gen::build<Op>(rc::gen::set(&Op::code, weighted<int>(codes)), rc::gen::set(&Op::k, uni_int(0, 7)), rc::gen::set(&Op::allow, weighted<int>({{6, 3}, {2, 1}, {2, 2}})),
                               rc::gen::set(&Op::ttl_ms, ttl), rc::gen::set(&Op::peek, rc::gen::map(uni_int(0, 2), [](int v) { return v == 0; })),
                               rc::gen::set(&Op::flavour, weighted<int>({{5, 0}, {2, 1}, {1, 2}, {1, 3}})), rc::gen::set(&Op::elems, elems),
@@ -816,6 +840,15 @@ void on_abort(int)
     dump_current();
     std::signal(SIGABRT, SIG_DFL);
 }
+void remember_run(const Program& p, const std::vector<int>& choices)
+{
+    // what a death callback will dump: the program with exactly the schedule that is about to run
+    Program q  = p;
+    q.schedule = choices;
+    std::string text = to_text(q);
+    g_current_len    = std::min(text.size(), sizeof g_current);
+    std::memcpy(g_current, text.data(), g_current_len);
+}
 } // namespace
 
 extern "C" void __sanitizer_set_death_callback(void (*)(void));
@@ -828,6 +861,7 @@ int main(int argc, char** argv)
     long        exhaust = std::getenv("VERIF_SCHED_EXHAUST") ? std::atol(std::getenv("VERIF_SCHED_EXHAUST")) : 40;
     int         max_ops = std::getenv("VERIF_SCHED_MAXOPS") ? std::atoi(std::getenv("VERIF_SCHED_MAXOPS")) : 2;
     std::string kinds_arg;
+    bool        sequential_only = false;
     for (int i = 2; i < argc; ++i)
     {
         std::string a   = argv[i];
@@ -848,6 +882,8 @@ int main(int argc, char** argv)
             exhaust = std::atol(nxt().c_str());
         else if (a == "--strict-f8")
             ;
+        else if (a == "--sequential")
+            sequential_only = true;
         else
             file = a;
     }
@@ -870,6 +906,13 @@ int main(int argc, char** argv)
                 ex = std::atol(ss.str().c_str() + pos + 10);
             else if (!p.schedule.empty())
                 ex = 0;
+        }
+        if (sequential_only)
+        {
+            // no preemption at all: every thread runs to completion in turn
+            p.schedule.clear();
+            p.more_schedules.clear();
+            ex = 0;
         }
         ProgResult R = check_program(p, ex);
         std::printf("verdict %d\nnontrivial %d\n", R.verdict, R.nontrivial_runs > 0 ? 1 : 0);
@@ -900,6 +943,7 @@ int main(int argc, char** argv)
     }
     __sanitizer_set_death_callback(dump_current);
     std::signal(SIGABRT, on_abort);
+    g_before_run = remember_run;
 
     long                         evaluations = 0, generated = 0, nontrivial = 0, schedules = 0, exhausted = 0, interleaved_runs = 0, range_interleaved = 0, nodes = 0, inconclusive = 0,
          not_lock_order = 0, hook_hits = 0, preemptions = 0;
